@@ -152,3 +152,31 @@ PROPS = {
                 rule="single-test schemas for every built-in of every type; subjects at n-1, n, n+1, all 256 single bytes for the character classes, class-edge characters, multi-byte and invalid UTF-8, equal instants in three zones +-1ns, NaN/Inf/-0 and nextafter neighbours, near-miss UUIDs and e-mail addresses (every position perturbed, label lengths 61..64), slices of strings, ints and pointers; plus random; distinct = distinct (test, parameter) pairs",
                 families=[sat("preds", "preds", 7000, 30000, ["pred"])]),
 }
+
+# what each check assumes or trusts beyond the common trusted base (hypotheses of the headline theorems,
+# oracles taken from the running code, parts that are modelled and not verified)
+ASSUMPTIONS = {
+    "C01": ["theorem hypotheses: pt_free (a PostTransform may rewrite a tested value afterwards, by design) and wf (the destination has the schema's shape)",
+            "user tests and custom functions are pure functions of the value they are given"],
+    "C02": ["the observed field visit order is known only for wrapped inputs; otherwise the judge accepts a case if some visit order explains it (counts in correspondence.order_known)"],
+    "C03": ["oracles from the running code: strconv.ParseFloat, time.Parse, %v of floats"],
+    "C04": ["white space = the 25 code points unicode.IsSpace accepts, in UTF-8"],
+    "C05": ["theorem hypotheses: pt_free for the locality statements, no repeated key in a struct schema"],
+    "C06": ["schema keys are non-empty (an empty schema key is misconfiguration); panics inside reflect / the standard library are covered only by the harness's recover", "the dynamic-type model (Model/Dyn.v) covers the provider layer, not every Go type"],
+    "C07": ["sync.Pool may hand out any pooled object or none (adversarial choice in the model); the caller collects a result at most once and only while holding it"],
+    "C08": ["PARTIAL: the Go memory model, sync.Pool internals and user callbacks are outside the model; the race-detector run is a test, not a proof"],
+    "C09": ["PARTIAL: pt_free (with PostTransforms the code is order dependent: known finding C09/pt-gating); no repeated key in a struct schema", "messages: parameter keys contain no braces; only the shipped language maps (user-edited templates are exercised by the harness, not covered by the theorem)"],
+    "C10": ["no issue is keyed '$first' (a schema key, tag or IssuePath spelled like the reserved entry collides with it: excluded as misconfiguration)", "nested source tags: known findings C10/nested-source-tag, C14/nested-source-tag"],
+    "C11": ["finite theorems are about the shipped catalogue and languages as regenerated from the code on this run (Gen/Tables.v)"],
+    "C12": ["user callbacks are pure functions of their argument and the call's context values"],
+    "C13": ["theorem hypotheses: no Preprocess node (its function sees a pointer in Validate and a value in Parse, by design) and a populated, correctly typed value", "custom functions that write through their pointer are compared between the modes only (model-free)"],
+    "C14": ["depth 1 (nested structs over flat sources and nested source tags: known findings)", "encoding/json, url.ParseQuery and net/http produce the model's input for the front ends"],
+    "C15": ["media type parsing modelled for ASCII; url.ParseQuery and encoding/json decide what is decodable"],
+    "C16": ["append may or may not reallocate (every growth policy is covered by the theorem)"],
+    "C17": ["chains on primitive schemas (the model is generic in the kind); slices are covered by the engine family only"],
+    "C18": ["oracle from the running code: strconv.ParseFloat for strings; exact big.Rat oracle in the harness"],
+    "C19": ["the slice-heap model covers slice-valued defaults; other schema-owned memory (test parameters, captured values) is covered by the harness's fingerprint of the schema object graph, model-free"],
+    "C20": ["url.Parse and regexp are table oracles from the running code, not modelled"],
+}
+for _k, _v in ASSUMPTIONS.items():
+    PROPS[_k]["assumptions"] = _v
